@@ -22,6 +22,7 @@ OPS = ["sum0", "np.sum0", "mean0", "np.mean0", "col_counts", "getcol"]
 FLOOR_TAGS = ["op:" + o for o in OPS] + ["kind:b", "kind:i", "kind:u", "kind:f", "e-first", "e-last", "e-mid", "e-consec", "e-none", "very-different-lengths",
                                          "recv:fresh", "recv:lazyrows", "recv:lazycols+2", "recv:lazycols-1", "recv:lazychain", "getcol:last", "getcol:0", "axis:numpy-integer", "v:nonfinite"]
 FLOOR_MONITORS = ["c09:compare"]
+FP_STRICT = True       # a floating-point event inside the library that the dense computation does not have is a violation (shard.FpMonitor)
 N_RANDOM = {"quick": 30000, "thorough": 300000}
 
 
@@ -57,8 +58,7 @@ def run(case):
     elif op in ("mean0", "np.mean0"):
         exp = np.array([float(np.mean(np.array(c, dtype=np.float64))) for c in cols])
         ax = axis_of(case)
-        with np.errstate(all="ignore"):
-            exp = np.array([float(np.mean(np.array(c, dtype=np.float64))) for c in cols])
+        exp = np.array([float(np.mean(np.array(c, dtype=np.float64))) for c in cols])
         a = attempt(lambda: ra.mean(axis=ax) if op == "mean0" else (np.mean(ra, axis=ax) if j % 2 == 0 else np.mean(ra, ax)))
     elif op == "col_counts":
         exp = np.array([len(c) for c in cols])
